@@ -64,6 +64,7 @@ FAULT_CLASSES = {}      # filled below: name -> class
 
 
 def _fault(kind):
+    STATE["fired"] = STATE.get("fired", 0) + 1
     name = STATE.get("fault_class") or ("base" if STATE.get("fault_base") else "exception")
     return FAULT_CLASSES[name](kind)
 
@@ -388,7 +389,7 @@ def run_real(scn: Scn, model=None):
     from black_it.schedulers.rl.rl_scheduler import RLScheduler
     from black_it.schedulers.round_robin import RoundRobinScheduler
 
-    STATE.update(model_calls=0, loss_calls=0, sampler_calls=0, batch_calls=0, b_fault_sample_call=None, faults=set(map(tuple, scn.faults)), dims=scn.dims,
+    STATE.update(model_calls=0, loss_calls=0, sampler_calls=0, batch_calls=0, fired=0, b_fault_sample_call=None, faults=set(map(tuple, scn.faults)), dims=scn.dims,
                  loss_table={tuple(f2h(x) for x in k): v for k, v in scn.loss_table.items()}, loss_default=scn.loss_default,
                  loss_fn=scn.loss_fn, loss_seen={}, real_args=set(), fault_base=bool(getattr(scn, "fault_base", False)), keep_buffers=bool(getattr(scn, "keep_buffers", False)), fault_class=getattr(scn, "fault_class", None), dedup_passes=int(getattr(scn, "dedup_passes", 0)), model_mutates=bool(getattr(scn, "model_mutates", False)))
     next_obj = [0]
@@ -455,7 +456,10 @@ def run_real(scn: Scn, model=None):
             for op in scn.ops:
                 if op[0] == "C":
                     try:
+                        fired0 = STATE["fired"]
                         p, l = _with_watchdog(lambda: cal.calibrate(op[1]))
+                        if STATE["fired"] > fired0:
+                            info.setdefault("swallowed", []).append(len(lines))     # an injected exception was raised inside this call, which returned normally
                         lines.append("ok " + dump(cal, scn) + f" result=[{canon_result(p, l)}]")
                         info["returns"].append((np.array(p), np.array(l)))
                     except Hang:
